@@ -2,6 +2,7 @@ import HmcVerif.Model.Integrator
 import HmcVerif.Real.Split
 import HmcVerif.Real.Lit
 import HmcVerif.Real.Reflect
+import HmcVerif.Real.Fold
 import HmcVerif.Real.Volume
 import Mathlib.Algebra.Module.Basic
 import Mathlib.Tactic.Ring
@@ -226,63 +227,73 @@ theorem propose_volume_preserving_all (vel grad : Vec ι → Vec ι) (hv : Measu
 end vol
 
 /-! ### 6. Box-bounded targets with Unit / Diagonal metric: mirror reflection keeps the scheme
-    reversible (single-bounce regime) — `…_partial`: states on a bound and double bounces excluded -/
+    reversible, for drifts of every length (any number of bounces) — `…_partial` only because states
+    exactly on a bound and non-diagonal metrics (section 7) are excluded -/
 
 section box
 variable {ι : Type}
 
-/-- the corrector on vectors: `reflect1` on every coordinate -/
+/-- the corrector on vectors: `corrector1` (one reflection per wall, then the fold) on every coordinate -/
 noncomputable def boxRefl (lb ub : ι → Option ℝ) (s : PS (ι → ℝ)) : PS (ι → ℝ) :=
-  { q := fun i => (reflect1 (lb i) (ub i) (s.q i) (s.p i)).1,
-    p := fun i => (reflect1 (lb i) (ub i) (s.q i) (s.p i)).2 }
+  { q := fun i => (correctorR (lb i) (ub i) (s.q i) (s.p i)).1,
+    p := fun i => (correctorR (lb i) (ub i) (s.q i) (s.p i)).2 }
 
 /-- velocity of a diagonal metric (`w i = 1 / m i`; Unit is `w = 1`) -/
 def diagVel (w : ι → ℝ) (p : ι → ℝ) : ι → ℝ := fun i => w i * p i
 
+/-- a box: where both bounds exist the lower one is below the upper one -/
+def WellFormed (lb ub : ι → Option ℝ) : Prop := ∀ i l u, lb i = some l → ub i = some u → l < u
+
 /-- the regime in which the theorem applies: before every drift the state is strictly inside the
-    box and the drift overshoots each bound by at most the box width -/
-def Regular (lb ub : ι → Option ℝ) (w : ι → ℝ) (s : PS (ι → ℝ)) : Op ℝ → Prop
-  | .drift c => ∀ i, strictlyInBox1 (lb i) (ub i) (s.q i) ∧ singleBounce1 (lb i) (ub i) (s.q i + (c * w i) * s.p i)
+    box. Nothing is asked of the drift: it may overshoot the box by any multiple of its width. -/
+def Regular (lb ub : ι → Option ℝ) (s : PS (ι → ℝ)) : Op ℝ → Prop
+  | .drift _ => ∀ i, strictlyInBox1 (lb i) (ub i) (s.q i)
   | .kick _ => True
 
-theorem boxed_step_reversible (lb ub : ι → Option ℝ) (w : ι → ℝ) (grad : (ι → ℝ) → (ι → ℝ))
-    (o : Op ℝ) (s : PS (ι → ℝ)) (hreg : Regular lb ub w s o) :
+theorem boxed_step_reversible (lb ub : ι → Option ℝ) (hwf : WellFormed lb ub) (w : ι → ℝ) (grad : (ι → ℝ) → (ι → ℝ))
+    (o : Op ℝ) (s : PS (ι → ℝ)) (hreg : Regular lb ub s o) :
     stepOp (diagVel w) grad (boxRefl lb ub) (flip (stepOp (diagVel w) grad (boxRefl lb ub) s o)) o = flip s := by
   cases o with
   | drift c =>
-    have key : ∀ i, bdrift1 (lb i) (ub i) (c * w i) (bdrift1 (lb i) (ub i) (c * w i) (s.q i) (s.p i)).1
-        (-(bdrift1 (lb i) (ub i) (c * w i) (s.q i) (s.p i)).2) = (s.q i, -s.p i) :=
-      fun i => bdrift1_reversible _ _ _ _ _ (hreg i).1 (hreg i).2
+    have key : ∀ i, cdrift1 (lb i) (ub i) (c * w i) (cdrift1 (lb i) (ub i) (c * w i) (s.q i) (s.p i)).1
+        (-(cdrift1 (lb i) (ub i) (c * w i) (s.q i) (s.p i)).2) = (s.q i, -s.p i) :=
+      fun i => cdrift1_reversible _ _ _ _ _ (hwf i) (hreg i)
     have e : ∀ (t : PS (ι → ℝ)) i, (t.q + c • diagVel w t.p) i = t.q i + (c * w i) * t.p i := by
       intro t i; simp [diagVel]; ring
     simp only [stepOp, flip, boxRefl]
     congr 1 <;> funext i
     · have := congrArg Prod.fst (key i)
-      simpa [bdrift1, e, diagVel, mul_assoc] using this
+      simpa [cdrift1, e, diagVel, mul_assoc] using this
     · have := congrArg Prod.snd (key i)
-      simpa [bdrift1, e, diagVel, mul_assoc] using this
+      simpa [cdrift1, e, diagVel, mul_assoc] using this
   | kick c =>
     simp only [stepOp, flip]
     congr 1; abel
 
-/-- **partial**: reversibility with mirror reflection, Unit/Diagonal metric, along every regular
-    trajectory. What is missing for the full statement: states exactly on a bound and drifts that
-    overshoot by more than the box width (there the proposal's energy is +∞ or the trajectory is
-    not reversible; such proposals are rejected, C06), and non-diagonal metrics (see below). -/
-theorem propose_reversible_boxed_diag_partial (lb ub : ι → Option ℝ) (w : ι → ℝ)
+/-- **partial**: reversibility with mirror reflection, Unit/Diagonal metric, for every step size and
+    every number of bounces, along every trajectory whose drifts start strictly inside the box.
+    What is missing for the full statement: states exactly on a bound (a null set) and non-diagonal
+    metrics (see below). -/
+theorem propose_reversible_boxed_diag_partial (lb ub : ι → Option ℝ) (hwf : WellFormed lb ub) (w : ι → ℝ)
     (grad : (ι → ℝ) → (ι → ℝ)) (c : Coeffs ℝ) (i : Integrator) (h : ℝ) (n : Nat) (s : PS (ι → ℝ))
-    (hreg : Split.PathGood (stepOp (diagVel w) grad (boxRefl lb ub)) (Regular lb ub w) (schedule c i h n) s) :
+    (hreg : Split.PathGood (stepOp (diagVel w) grad (boxRefl lb ub)) (Regular lb ub) (schedule c i h n) s) :
     runOps (diagVel w) grad (boxRefl lb ub) (schedule c i h n)
       (flip (runOps (diagVel w) grad (boxRefl lb ub) (schedule c i h n) s)) = flip s :=
-  Split.palindrome_reversible_on _ _ (Regular lb ub w)
-    (fun o s hg => boxed_step_reversible lb ub w grad o s hg) _ (schedule_palindrome c i h n) s hreg
+  Split.palindrome_reversible_on _ _ (Regular lb ub)
+    (fun o s hg => boxed_step_reversible lb ub hwf w grad o s hg) _ (schedule_palindrome c i h n) s hreg
+
+/-- after the corrector every coordinate with two bounds lies between them, whatever the drift was -/
+theorem boxRefl_in_box (lb ub : ι → Option ℝ) (hwf : WellFormed lb ub) (s : PS (ι → ℝ)) (i : ι) (l u : ℝ)
+    (hl : lb i = some l) (hu : ub i = some u) : l ≤ (boxRefl lb ub s).q i ∧ (boxRefl lb ub s).q i ≤ u := by
+  simp only [boxRefl, hl, hu]
+  exact correctorR_in_box l u _ _ (hwf i l u hl hu)
 
 /-- the corrector conserves the kinetic energy of every diagonal metric -/
 theorem reflect_conserves_kinetic [Fintype ι] (lb ub : ι → Option ℝ) (w : ι → ℝ) (s : PS (ι → ℝ)) :
     ∑ i, w i * ((boxRefl lb ub s).p i) ^ 2 = ∑ i, w i * (s.p i) ^ 2 := by
   apply Finset.sum_congr rfl
   intro i _
-  simp only [boxRefl, reflect1_momentum_sq]
+  simp only [boxRefl, correctorR_momentum_sq]
 end box
 
 /-! ### 7. The full cross product of the property's quantifier fails: a non-diagonal metric with
@@ -302,16 +313,18 @@ theorem full_mass_box_not_reversible :
       ≠ flip witnessS := by
   intro h
   have h1 := congrFun (congrArg PS.q h) 1
-  simp [stepOp, flip, boxRefl, witnessS, witnessLb, witnessUb, fullVel, reflect1, reflLow, reflHigh] at h1
+  simp [stepOp, flip, boxRefl, witnessS, witnessLb, witnessUb, fullVel, correctorR, corrector1, reflect1, reflLow, reflHigh] at h1
 
 /-! ### non-vacuity: the hypotheses above are met by concrete non-trivial states -/
 
-/-- a regular one-coordinate state: box [0,1], start 1/2, drift 1·(3/4) overshoots by 1/4 ≤ width -/
-example : strictlyInBox1 (some 0) (some 1) (1/2 : ℝ) ∧ singleBounce1 (some 0) (some 1) ((1/2 : ℝ) + 1 * (3/4)) := by
-  refine ⟨⟨?_, ?_⟩, ?_⟩
+/-- a regular one-coordinate state in a well-formed box: [0,1], start 1/2 - and a drift of 3·(9/4) that
+    crosses six walls is reversed like any other (instance of `cdrift1_reversible`) -/
+example : strictlyInBox1 (some 0) (some 1) (1/2 : ℝ) ∧ ((0:ℝ) < 1) := by
+  refine ⟨⟨?_, ?_⟩, by norm_num⟩
   · intro l hl; cases hl; norm_num
   · intro u hu; cases hu; norm_num
-  · intro l u hl hu; cases hl; cases hu; constructor <;> intro _ <;> norm_num
+example : cdrift1 (some 0) (some 1) 3 (cdrift1 (some 0) (some 1) 3 (1/2) (9/4)).1 (-(cdrift1 (some 0) (some 1) 3 (1/2) (9/4)).2) = (1/2, -(9/4)) :=
+  cdrift1_reversible_box 0 1 3 (1/2) (9/4) (by norm_num) (by norm_num) (by norm_num)
 example : ∀ p : ℝ, (fun x => (2:ℝ) * x) (-p) = -((fun x => (2:ℝ) * x) p) := by intro p; ring
 
 end C01
